@@ -135,18 +135,25 @@ def hyper_case(rng, cid):
         kw["input_transform"] = lambda i, p: i * p.eq_params["a"]
     if use_tout:
         kw["output_transform"] = lambda i, o, p: o + p.eq_params["a"] * i[0]
-    u = jinns.utils.create_HYPERPINN(jax.random.PRNGKey(rng.randrange(1 << 30)), eqx_list, eq_type, hyperparams=["a", "b"], hypernet_input_size=2,
+    # the designated parameters feed the hyper-network in the DECLARED order, whatever the order of the parameter dictionary
+    hyper_order = rng.choice([["a", "b"], ["b", "a"]])
+    u = jinns.utils.create_HYPERPINN(jax.random.PRNGKey(rng.randrange(1 << 30)), eqx_list, eq_type, hyperparams=hyper_order, hypernet_input_size=2,
                                      dim_x=dim_x, eqx_list_hyper=eqx_list_hyper, **kw)
     eqp = [dy(rng, 1, 3), dy(rng)]
-    P = Params(nn_params=u.init_params(), eq_params={"a": jnp.array(eqp[0]), "b": jnp.array(eqp[1])})
+    eqd = {"a": jnp.array(eqp[0]), "b": jnp.array(eqp[1])}
+    if rng.random() < 0.5:
+        eqd = dict(reversed(list(eqd.items())))
+    P = Params(nn_params=u.init_params(), eq_params=eqd)
     inputs = [dy(rng) for _ in range(nin)]
-    out = u(jnp.array(inputs), P) if eq_type != "ODE" else u(jnp.array(inputs), P)
+    use_jit = rng.random() < 0.5          # under jit the dictionary is rebuilt in sorted key order
+    out = (jax.jit(lambda i, p: u(i, p)) if use_jit else u)(jnp.array(inputs), P)
+    hyper_in = [eqp[0], eqp[1]] if hyper_order == ["a", "b"] else [eqp[1], eqp[0]]
     hl = export_layers(u.init_params().layers, u.static_hyper.layers)
     shapes = [(h, nin), (nout, h)]
     acts = [with_act, False]
-    term = (f"Hyper {cnat(cid)} {clist(hl, clay)} {clist(eqp, cq)} {clist(shapes, lambda s: f'({cnat(s[0])}, {cnat(s[1])})')} {clist(acts, cbool)} {cbool(use_tin)} {cbool(use_tout)} "
+    term = (f"Hyper {cnat(cid)} {clist(hl, clay)} {clist(hyper_in, cq)} {cq(eqp[0])} {clist(shapes, lambda s: f'({cnat(s[0])}, {cnat(s[1])})')} {clist(acts, cbool)} {cbool(use_tin)} {cbool(use_tout)} "
             f"{clist(inputs, cq)} {clist(np.asarray(out).ravel().tolist(), cq)}")
-    return term, dict(what="hyper", eq_type=eq_type, nout=nout, with_act=with_act, use_tin=use_tin, use_tout=use_tout), []
+    return term, dict(what="hyper", eq_type=eq_type, nout=nout, with_act=with_act, use_tin=use_tin, use_tout=use_tout, hyperparams=hyper_order, jit=use_jit), []
 
 
 def generate(tier, seed, casedir, variant):
